@@ -18,7 +18,8 @@ import FGVerif.Model.Graph
   C01's theorem; the harness checks it on every pattern it uses).
 
   Also here: the declarative description of the result (`specNodes`, `specLabels`, `incSpec`) and
-  its executable checker `specCheck`, which the driver applies to implementation outputs.
+  its executable checker `specCheck` for parents on ids `0..n-1`, and `specNodesIds` / `specCheckIds` for
+  parents with ARBITRARY ids (`inDomainIds`); the driver applies them to implementation outputs.
   No Mathlib.
 -/
 namespace C13
@@ -125,14 +126,32 @@ def relabelCopy (g : Graph) (m : List (Int × Int)) : Graph :=
 /-- `relabel_graph(g, offset)` -/
 def relabelGraph (g : Graph) (offset : Int) : Graph := relabelCopy g (relabelMapping g offset)
 
-/-- `replace_node(graph, node, replacement_graph, parser)`; `sub` is the pattern parsed at offset 0 -/
-def replaceNode (graph : Graph) (node : Int) (sub : Graph) (anchors : List Nat) : Graph :=
-  let idxOffset : Int := graph.nodes.length
+/-- the body of `replace_node` once `idx_offset` has been computed; `sub` is the pattern parsed at offset 0 -/
+def replaceNodeAt (idxOffset : Int) (graph : Graph) (node : Int) (sub : Graph) (anchors : List Nat) : Graph :=
   let h := shiftGraph sub idxOffset
   let graph := compose graph h
   let graph := if h.nodes.length > 0 then reattach graph node idxOffset anchors else graph
   let graph := graph.removeNode node
   relabelGraph graph 0
+
+/-- `max(graph.nodes, default=-1) + 1`: the first id above every id of the graph (`0` for the empty graph) -/
+def nextId (g : Graph) : Int :=
+  match g.nodeIds with
+  | [] => 0
+  | y :: ys => ys.foldl max y + 1
+
+/-- `replace_node(graph, node, replacement_graph, parser)` with
+    `idx_offset = max(graph.nodes, default=-1) + 1` (the repaired numbering of the inserted sub-pattern) -/
+def replaceNode (graph : Graph) (node : Int) (sub : Graph) (anchors : List Nat) : Graph :=
+  replaceNodeAt (nextId graph) graph node sub anchors
+
+/-- the function before the repair, `idx_offset = len(graph.nodes)`.  It agrees with `replaceNode` exactly when
+    `len(graph.nodes)` is the first free id, in particular on every parent whose ids are a permutation of
+    `0..n-1` (`C13.replaceNode_eq_len`); outside that domain `len(graph.nodes)` may be an id in use
+    (`C13.len_offset_collides`).  Kept because the proofs for parents on ids `0..n-1` were developed for it; it is
+    not compared with any code (where the colliding id is `node` itself, Python's loop raises instead). -/
+def replaceNodeLen (graph : Graph) (node : Int) (sub : Graph) (anchors : List Nat) : Graph :=
+  replaceNodeAt (graph.nodes.length : Int) graph node sub anchors
 
 /-! ### the declarative description of the result -/
 
@@ -243,5 +262,46 @@ def relabelSpecCheck (g : Graph) (offset : Int) (out : Graph) : Bool :=
   out.multi == g.multi && out.nodes == g.nodes.map (fun p => (ρ p.1, p.2)) && closedB out &&
   g.nodeIds.all fun a => g.nodeIds.all fun b =>
     (labelsBetween out (ρ a) (ρ b)).isPerm (labelsBetween g a b)
+
+/-! ### arbitrary node ids (distinct integers in any order: offset, sparse, shuffled, negative)
+
+  `relabel_graph` renumbers by SORTED id, not by node order: a surviving parent node gets its rank among the
+  surviving parent ids (the inserted sub-pattern is numbered from `max id + 1`, above every parent id, so it
+  does not disturb those ranks and its own nodes rank last, in the order of their parse ids `0..m-1`); the node
+  ORDER of the result is inherited: the parent's other nodes in the parent's node order, then the sub-pattern's. -/
+
+/-- the parent's other ids, in node order -/
+def surv (g : Graph) (x : Int) : List Int := g.nodeIds.filter (· != x)
+
+/-- new name of a parent node `u ≠ x`: its rank among the surviving parent ids -/
+def renIds (g : Graph) (x u : Int) : Int := rank (surv g x) u
+
+/-- all other parent nodes in the parent's node order with their attributes under `u ↦ rank u`, then a verbatim copy
+    of the sub-pattern's nodes under `j ↦ n − 1 + j` -/
+def specNodesIds (g : Graph) (x : Int) (sub : Graph) : List (Int × NodeAttr) :=
+  ((g.nodes.filter (·.1 != x)).map fun p => (renIds g x p.1, p.2))
+    ++ sub.nodes.map fun p => (p.1 + ((g.nodes.length : Int) - 1), p.2)
+
+/-- the domain for arbitrary ids: a well-formed parent (`wf` asks the ids to be pairwise distinct and nothing
+    else of them) that contains `node` without a self-loop, a well-formed sub-pattern on ids `0..m-1` (what the
+    parser yields at offset 0), anchors inside the sub-pattern, same graph kind -/
+def inDomainIds (g : Graph) (x : Int) (sub : Graph) (anchors : List Nat) : Bool :=
+  wf g && g.hasNode x && !g.hasEdge x x && wf sub && contiguousAny sub &&
+    anchorsOk sub anchors && sub.multi == g.multi
+
+/-- executable form of `SpecIds` (Proofs/C13Ids.lean), stated with the OLD names of the nodes: graph kind; node
+    list; bonds among surviving parent nodes unchanged; the sub-pattern's bonds copied; between a parent node and
+    a sub-pattern node exactly the re-attached bonds (`crossLabels`: k-th incident bond of `node`, in the order
+    `incSpec`, to `anchor[min k (|anchor| − 1)]`); the adjacency mentions only nodes (so nothing else exists) -/
+def specCheckIds (g : Graph) (x : Int) (sub : Graph) (anchors : List Nat) (out : Graph) : Bool :=
+  let n1 : Int := (g.nodes.length : Int) - 1
+  out.multi == g.multi && out.nodes == specNodesIds g x sub && closedB out &&
+  ((surv g x).all fun u => (surv g x).all fun v =>
+    (labelsBetween out (renIds g x u) (renIds g x v)).isPerm (labelsBetween g u v)) &&
+  (sub.nodeIds.all fun i => sub.nodeIds.all fun j =>
+    (labelsBetween out (i + n1) (j + n1)).isPerm (labelsBetween sub i j)) &&
+  ((surv g x).all fun u => sub.nodeIds.all fun j =>
+    (labelsBetween out (renIds g x u) (j + n1)).isPerm (crossLabels g x anchors u j) &&
+    (labelsBetween out (j + n1) (renIds g x u)).isPerm (crossLabels g x anchors u j))
 
 end C13
